@@ -308,9 +308,11 @@ def main():
 
     # 2. translator (tie B)
     tb = None
-    if prop.get('translator'):
-        import translate
+    import translate
+    if pid in translate.ALL_PIDS:
+        ok_m, out_m = build_coq(['theories/Spec.vo', 'theories/Win.vo', 'theories/Unix.vo'])
         tb = translate.run(pid, prop, REPO, rundir, THEORIES)
+        tb.pop('generated', None)
         obligations += tb['obligations']
         discharged += tb['discharged']
         for b_ in tb['broken']:
